@@ -420,15 +420,24 @@ func check(b batch) *rp.Fail {
 	if f == nil {
 		return nil
 	}
+	// a failure is reported only if it shows again with all times stretched - twice, the second time by more (a reply that is
+	// due 250 ms before the deadline is late on a machine that is busy enough; stretched, the margin is seconds)
+	last := false
 	for _, scale := range []int{4, 16} {
-		if b.TimeoutMs*scale > 4000 {
-			break
+		if b.TimeoutMs*scale > 10000 {
+			scale, last = 10000/b.TimeoutMs, true
+			if scale < 2 {
+				scale = 2
+			}
 		}
 		if f2 := runBatch(b, scale); f2 == nil {
 			ev.Inconclusive(1)
 			return nil
 		} else {
 			f = f2
+		}
+		if last {
+			break
 		}
 	}
 	return f
